@@ -306,6 +306,9 @@ def base_scenario(rng: random.Random, prop: str, **kn) -> dict:
         if rng.random() < 0.5:
             k = rng.randint(1, 3)
             scn["plan"]["steps"][0]["variables"] = [points[rng.randrange(npoints)] for _ in range(k)]
+    if rng.random() < kn.get("validated_object_p", 0.15):
+        # the user validates the configuration and hands the EnOptConfig object to the steps (which validate again)
+        scn["validated_config_object"] = True
     return scn
 
 
